@@ -49,7 +49,7 @@ Print Assumptions C09_once_spec.
 Theorem C09_findall_spec : forall call t g l s xs,
   call_goal call g [] s = (xs, false) ->
   builtin call (s_ "findall") [t; g; l] s =
-  Some (let '(es, b) := collect (nxt s) (max_nxt s xs) t xs in unify_st {| sto := sto s; nxt := b |} l (mk_list es)).
+  Some (let '(es, b) := collect (nxt s) (nxt s) t xs in unify_st {| sto := sto s; nxt := b |} l (mk_list es)).
 Proof. exact findall_spec. Qed.
 Print Assumptions C09_findall_spec.
 
